@@ -635,6 +635,38 @@ def w18(ctx, rid):
         raise core.AnchorLost('ToolsError match arms in read_record: %d' % n)
 
 
+def w19(ctx, rid):
+    """the blob header of the output is derived from the blob header of the input: every header preprocessor handed to
+    process_blob_with (identity for recovery, version conversion for migration) builds its result from the header it is given.
+    A freshly constructed header stamps a version-0 blob as current while its records keep the old key layout - the recovered
+    blob validates but the storage serves no record under its real key"""
+    prog = ctx.prog
+    n = 0
+    for f in prog.fns.values():
+        if not f.file.startswith('src/tools/'):
+            continue
+        for c in f.calls:
+            if c.bb not in f.reachable() or not any(t == 'tools::utils::process_blob_with' for t in prog.resolve(c)):
+                continue
+            for a in c.args:
+                l = op_local(a)
+                if l is None or f.locals[l].get('h') != 'closure':
+                    continue
+                h = prog.fns.get(f.locals[l]['a'][0])
+                if h is None or len(h.locals) < 3 or 'Header' not in h.locals[2]['s']:
+                    continue    # the record preprocessor
+                n += 1
+                key = 'output-header-from-input-header|%s' % prog.fns[f.id].root
+                carry = core.flows_forward(h, 2, transparent=lambda x: tuple(range(len(x.args))))
+                if 0 in carry:
+                    ctx.ok(rid, key, h.where(), 'the result is built from the header that was read')
+                else:
+                    ctx.bad(rid, key, h.where(), 'the header written to the output is not derived from the header read from the input (a fresh header): '
+                            'version and flags of the input are lost, an old-version blob is stamped current while its records keep the old layout')
+    if n < 2:
+        raise core.AnchorLost('header preprocessors handed to process_blob_with: %d' % n)
+
+
 def w14(ctx, rid):
     """the output writer re-validates exactly what it wrote since the last round: whenever records leave its cache (clear, drain,
     take ..) the byte counter of the cached records is reset in the same function - otherwise the next round seeks to the
@@ -687,5 +719,6 @@ RULES = [
     Rule('C16.W16', 'the sequential index loader groups headers by key lookup, never by map position (tools load with a byte-wise key order)', w16, 1),
     Rule('C16.W17', 'every tool loop asks is_eof() before each read_record (a header-only blob is a valid blob)', w17, 3),
     Rule('C16.W18', 'with skipping requested a record-level validation error always leads on to the next record', w18, 2),
+    Rule('C16.W19', 'every header preprocessor of recovery / migration builds the output header from the input header', w19, 2),
     Rule('C16.W7', 'the index tools load through the validating loader and validate every reported header', w7, 2),
 ]
